@@ -38,6 +38,17 @@ func AliasDocs() []V {
 	wrap := func(vs ...V) {
 		for _, v := range vs {
 			out = append(out, v, []interface{}{v}, []interface{}{v, 1.0}, map[string]interface{}{"a": []interface{}{v}})
+			// beyond small scope: the same value inside a list of 130 elements / an object of 70 keys
+			long := make([]interface{}, 130)
+			wide := map[string]interface{}{}
+			for i := range long { // filler members that alias nothing in the alphabet
+				long[i] = fmt.Sprintf("e%03d", i)
+			}
+			for i := 0; i < 70; i++ {
+				wide[fmt.Sprintf("k%02d", i)] = fmt.Sprintf("e%03d", i)
+			}
+			long[65], wide["k35"] = v, v
+			out = append(out, long, wide)
 		}
 	}
 	wrap(0.0, "\x00\x00\x00\x00\x00\x00\x00\x00")
@@ -86,6 +97,19 @@ func c04PrecisionDocs() *TextSet {
 				map[string]interface{}{"x": x, "y": 2.0}, []interface{}{map[string]interface{}{"x": x, "y": []interface{}{x}, "z": "s"}})
 		}
 		out = append(out, "1", nil, true, []interface{}{}, []interface{}{1.0, 1.0}, ref.Void{})
+		// beyond small scope: 70 keys, 129 elements, values differing within / beyond the precision
+		for _, delta := range []float64{0, 0.004, 0.05, 0.5} {
+			o := map[string]interface{}{}
+			l := make([]interface{}, 129)
+			for i := 0; i < 70; i++ {
+				o[fmt.Sprintf("k%02d", i)] = float64(i) + delta
+			}
+			for i := range l {
+				l[i] = float64(i)
+			}
+			l[64] = 64 + delta
+			out = append(out, o, l, map[string]interface{}{"list": l})
+		}
 		return NewTextSet(out)
 	})
 }
@@ -144,7 +168,7 @@ func init() {
 		Run:      runC04,
 		Required: func(string) []string { return []string{"equal-by-reading-only", "unequal", "identical"} },
 		Assume:   []string{"accidental 64-bit FNV collisions between unrelated values are not decidable by enumeration; only structural aliasing families are covered"},
-		Budget:   budget(4*time.Minute, 30*time.Minute),
+		Budget:   budget(7*time.Minute, 30*time.Minute),
 	})
 }
 
